@@ -2,7 +2,9 @@ SPECIFICATION Spec
 CONSTANTS
   Classes <- Classes4
   Outs <- OutsC02
-  Durs = {0, 1, 5}
+  Durs = {0, 1}
+  CDurs <- SomeDur
+  EDurs <- SomeDur
   Rets <- RetsThree
   Advs <- AdvsThree
   Decs <- DecsSleep
